@@ -19,6 +19,11 @@ variable {K : Type} [Num K]
 
 /-! ## 2-D -/
 
+/-- comparisons against a bound that may be `Real::max_value()` (`none`) -/
+@[inline] def optLe (a : Option K) (b : K) : Bool := match a with | some x => decide (x ≤ b) | none => false
+@[inline] def optLt (a : Option K) (b : K) : Bool := match a with | some x => decide (x < b) | none => false
+@[inline] def leOpt (b : K) (a : Option K) : Bool := match a with | some x => decide (b ≤ x) | none => true
+
 /-- `CSOPoint` -/
 structure CSO2 (K : Type) where
   point : V2 K
@@ -290,15 +295,15 @@ def gjkBody3 (fs : V3 K → CSO3 K) (maxDist : Option K) (exact : Bool)
   match tryNewAndGet3 proj.neg epsTol with
   | none => .exit .intersection s                                  -- the origin is on the simplex
   | some (dir, mb) =>
-    if (match maxBound with | some old => decide (old ≤ mb) | none => false) then
+    if optLe maxBound mb then
       -- upper bounds inconsistencies
       if exact then let r := s.result true; .exit (.closest r.1 r.2 oldDir) s else .exit (.proximity oldDir) s
     else
     let cso := fs dir
     let minBound := -(dir.dot cso.point)
     if !isFinite minBound then .exit .panic s else
-    if (match maxDist with | some md => decide (md < minBound) | none => false) then .exit (.noIntersection dir) s
-    else if !exact && decide (0 < minBound) && (match maxDist with | some md => decide (mb ≤ md) | none => true) then
+    if optLt maxDist minBound then .exit (.noIntersection dir) s
+    else if !exact && decide (0 < minBound) && leOpt mb maxDist then
       .exit (.proximity oldDir) s
     else if mb - minBound ≤ epsRel * mb then
       -- the distance found has a good enough precision
@@ -393,15 +398,15 @@ def gjkBody2 (fs : V2 K → CSO2 K) (maxDist : Option K) (exact : Bool)
   match tryNewAndGet2 proj.neg epsTol with
   | none => .exit .intersection s                                  -- the origin is on the simplex
   | some (dir, mb) =>
-    if (match maxBound with | some old => decide (old ≤ mb) | none => false) then
+    if optLe maxBound mb then
       -- upper bounds inconsistencies
       if exact then let r := s.result true; .exit (.closest r.1 r.2 oldDir) s else .exit (.proximity oldDir) s
     else
     let cso := fs dir
     let minBound := -(dir.dot cso.point)
     if !isFinite minBound then .exit .panic s else
-    if (match maxDist with | some md => decide (md < minBound) | none => false) then .exit (.noIntersection dir) s
-    else if !exact && decide (0 < minBound) && (match maxDist with | some md => decide (mb ≤ md) | none => true) then
+    if optLt maxDist minBound then .exit (.noIntersection dir) s
+    else if !exact && decide (0 < minBound) && leOpt mb maxDist then
       .exit (.proximity oldDir) s
     else if mb - minBound ≤ epsRel * mb then
       -- the distance found has a good enough precision
